@@ -801,6 +801,10 @@ func expectErr(k string, e *errSpec, o *objX) string {
 		o.put(k, xstr(uni(e.Msg)))
 		o.put(k+"Verbose", xstr(uni(e.Msg+"\nverbose\t\"x\"")))
 		return ""
+	case "swapverbose":
+		o.put(k, xstr(uni("op:"+e.Msg)))
+		o.put(k+"Verbose", xstr(uni("E7:"+e.Msg)))
+		return ""
 	case "group":
 		o.put(k, xstr(uni(e.Msg)))
 		arr := &xnode{kind: "arr"}
